@@ -277,6 +277,12 @@ def _sweep(acc, shard, nshards, seed, tier):
             for pa in (False, True):
                 emit(base, var, "suffix-swap", {"strip_suffix": True, "platform_aware": pa})
                 emit(base, var, "suffix-swap-without-strip_suffix", {"strip_suffix": False, "platform_aware": pa}, "differ")
+    # per-domain irrelevant items together with a port / upper-case host (the filter must be chosen from the hostname)
+    for dom, items in T.PER_DOMAIN_POOL.items():
+        for (k, v), port, o in itertools.product(items, [":8080", ":1", ":443"], OPTSETS):
+            it = k if v is None else "%s=%s" % (k, v)
+            for hostv in (dom, "www." + dom, dom.upper()):
+                emit("https://%s/watch?v=dQw4w9WgXcQ" % dom, "https://%s%s/watch?v=dQw4w9WgXcQ&%s" % (hostv, port, it), "port+per-domain-item", o)
     # the README's own example
     for pa in (False, True):
         for path in ["/zuck", "/some.page/posts/123", ""]:
